@@ -30,6 +30,10 @@ def runModel (ops : List String) : String :=
     | "op", some [p, s, n] =>
       let (t', e) := op t p s n
       (t', outs ++ [match e with | none => "true" | some e => errOut e])
+    | "cm", some [p, s, n] =>
+      -- the whole table is enumerated; op/3 runs between the first and the second solution
+      let (t', e) := op t p s n
+      (t', outs ++ ["ans " ++ rows t ++ " / " ++ (match e with | none => "true" | some e => errOut e)])
     | "cur", some [p, s, n] =>
       (t, outs ++ [match currentOp t p s n with
         | .ok r => "ans " ++ rows r
@@ -74,6 +78,22 @@ def judge (ops : List String) (impl : List String) : String :=
           else if r == "true" then go (specOp t pp sp ns) os rs (i+1)
           else s!"FAIL op #{i}: legal update must succeed, got {r}"
         | none => if r.startsWith "err " then go t os rs (i+1) else s!"FAIL op #{i}: ill-typed op/3 must raise an error, got {r}"
+      | "cm", some [p, s, n] =>
+        -- the answers of one current_op/3 call are the table as it was when it was called, whatever
+        -- op/3 does before the call is backtracked into; the update itself is judged as any other
+        let ansWant := "ans " ++ rows t
+        match r.splitOn " / " with
+        | [a, u] =>
+          if a != ansWant then s!"FAIL op #{i}: current_op enumeration with an update between two solutions: the answers must be the table at call time: want {ansWant}"
+          else
+            match specParse p s n with
+            | some (pp, sp, ns) =>
+              if specIllegal t pp sp ns then
+                if u.startsWith "err " then go t os rs (i+1) else s!"FAIL op #{i}: illegal update must raise an error, got {u}"
+              else if u == "true" then go (specOp t pp sp ns) os rs (i+1)
+              else s!"FAIL op #{i}: legal update must succeed, got {u}"
+            | none => if u.startsWith "err " then go t os rs (i+1) else s!"FAIL op #{i}: ill-typed op/3 must raise an error, got {u}"
+        | _ => s!"FAIL op #{i}: unreadable outcome {r}"
       | "cur", some [p, s, n] =>
         if specPatternOk p s n then
           let want := "ans " ++ rows (t.filter fun o =>
